@@ -207,6 +207,7 @@ def exc_obs(e):
     return ('other', '%s: %s' % (type(e).__name__, m))
 
 
+NFILES = [8]             # case files per stage (16 on the thorough tier)
 PATIENCE = [20]          # seconds allowed per call; a sequence that times out is re-run once with much more
 
 
@@ -218,8 +219,11 @@ def do_call(call, handed):
     if kind == 'parse':
         st, r = core.guarded(ex.parse, s, seconds=PATIENCE[0])
         if st == 'ret':
-            nm = names_obs(r.variables_used, r.functions_used, r.suffixes_used)
-            sx = sexp_of(r.tree, PR)
+            try:
+                nm = names_obs(r.variables_used, r.functions_used, r.suffixes_used)
+                sx = sexp_of(r.tree, PR)
+            except Exception as e:      # noqa - whatever was returned is not a usable MathExpression
+                return ('other', 'unusable result'), ('unusable', type(r).__name__, type(e).__name__)
             handed.append((r, nm))
             return ('tree', sx, nm), ('tree', sx, nm)
         if st == 'exc':
@@ -227,13 +231,17 @@ def do_call(call, handed):
         return ('other', 'timeout'), ('timeout',)
     st, r = core.guarded(ex.evaluator, s, VARS, FUNCS, SUFS, max_array_dim=md, seconds=PATIENCE[0])
     if st == 'ret':
-        v, meta = r
-        nm = names_obs(meta.variables_used, meta.functions_used, meta.suffixes_used)
+        try:
+            v, meta = r
+            nm = names_obs(meta.variables_used, meta.functions_used, meta.suffixes_used)
+            dim = int(meta.max_array_dim_used)
+        except Exception as e:      # noqa
+            return ('other', 'unusable result'), ('unusable', type(r).__name__, type(e).__name__)
         if isinstance(v, float) and math.isnan(v):
-            o = ('nan', nm, meta.max_array_dim_used)
+            o = ('nan', nm, dim)
             return o, o
         vo = val_obs(v)
-        return ('val', vo, nm, meta.max_array_dim_used), ('val', repr(v), nm, meta.max_array_dim_used)
+        return ('val', vo, nm, dim), ('val', repr(v), nm, dim)
     if st == 'exc':
         return exc_obs(r), ('exc', type(r).__name__, str(r))
     return ('other', 'timeout'), ('timeout',)
@@ -260,7 +268,10 @@ def run_sequence(calls):
         out.append((obs, outcome, state))
     changed = None
     for i, (obj, nm) in enumerate(handed):
-        now = names_obs(obj.variables_used, obj.functions_used, obj.suffixes_used)
+        try:
+            now = names_obs(obj.variables_used, obj.functions_used, obj.suffixes_used)
+        except Exception as e:      # noqa
+            now = ('unreadable', type(e).__name__)
         if now != nm:
             changed = (i, nm, now)
             break
@@ -486,8 +497,9 @@ class Table(object):
         return self.ids[x]
 
 
-def eval_histories(tag, seqs, results, shard):
-    """seqs: list of call lists; results: per sequence ([(obs, outcome, state)], changed).  Returns ({index: code}, errors)."""
+def eval_histories(tag, seqs, results, shard, on_codes):
+    """seqs: list of call lists; results: per sequence ([(obs, outcome, state)], changed).
+    Queues the case files; on_codes({index: code}, errors) is called when they have been evaluated."""
     files = []
     for k in range(0, len(seqs), shard):
         calls, views, states = Table(), Table(), Table()
@@ -501,16 +513,37 @@ def eval_histories(tag, seqs, results, shard):
                 'Definition states : list istate :=\n  [ %s ].\n' % '\n  ; '.join(state_term(s) for s in states.items) +
                 'Definition verif_cases : list (list (nat * nat * nat)) :=\n  [ %s ].\n' % '\n  ; '.join(cases) + RUNNER)
         files.append(('%s_%04d' % (tag, k // shard), text))
-    out = core.run_case_files(files)
-    codes, errors = {}, []
-    for (name, rc, txt), k in zip(out, range(0, len(seqs), shard)):
-        m = re.search(r'=\s*(\[.*?\]|nil)\s*:\s*list \(Z \* Z\)', txt, re.S)
-        if rc != 0 or not m:
-            errors.append((name, txt[-2000:]))
-            continue
-        for a, b in re.findall(r'\((-?\d+),\s*(-?\d+)\)', m.group(1)):
-            codes[k + int(a)] = int(b)
-    return codes, errors
+    def handler(out):
+        codes, errors = {}, []
+        for (name, rc, txt), k in zip(out, range(0, len(seqs), shard)):
+            m = re.search(r'=\s*(\[.*?\]|nil)\s*:\s*list \(Z \* Z\)', txt, re.S)
+            if rc != 0 or not m:
+                errors.append((name, txt[-2000:]))
+                continue
+            for a, b in re.findall(r'\((-?\d+),\s*(-?\d+)\)', m.group(1)):
+                codes[k + int(a)] = int(b)
+        on_codes(codes, errors)
+    DEFER.add(files, handler)
+
+
+class Deferred(object):
+    """case files of all stages are evaluated in one parallel batch at the end of run()"""
+    def __init__(self):
+        self.jobs = []
+
+    def add(self, files, handler):
+        self.jobs.append((files, handler))
+
+    def flush(self):
+        jobs, self.jobs = self.jobs, []
+        out = core.run_case_files([f for files, _ in jobs for f in files])
+        i = 0
+        for files, handler in jobs:
+            handler(out[i:i + len(files)])
+            i += len(files)
+
+
+DEFER = Deferred()
 
 
 # =================================================================================================
@@ -522,6 +555,11 @@ def show_call(c):
 
 def check_histories(res, label, seqs, results, stats):
     """the fresh-vs-shared oracle on every call of every history"""
+    todo = sorted(set(c for sq in seqs for c in sq if c not in _FRESH), key=repr)
+    if len(todo) > 64:          # each distinct call once on a parser constructed for it alone, in the worker pool
+        for c, r in zip(todo, run_many([[c] for c in todo])):
+            if r is not None:
+                _FRESH[c] = r[0][0][1]
     for sq, (out, changed) in zip(seqs, results):
         for i, (call, o) in enumerate(zip(sq, out)):
             res.oracle_evals += 1
@@ -565,28 +603,33 @@ def histories(ctx, res, rng, stats):
     results = run_many(seqs)
     seqs, results = drop_unobserved(seqs, results, stats)
     check_histories(res, 'exhaustive', seqs, results, stats)
-    codes, errors = eval_histories('c10_hist', seqs, results, shard=max(400, (len(seqs) + 15) // 16))
+    def on_codes(codes, errors):
+        res.corr_errors += errors
+        declined = 0
+        for i, code in sorted(codes.items()):
+            if code == 3:
+                declined += 1
+                continue
+            res.disagreements.append({'kind': 'history', 'code': {1: 'outcome differs', 2: 'cache/scratch state differs',
+                                                                   4: 'bad case'}.get(code, code),
+                                      'calls': [show_call(c) for c in seqs[i]],
+                                      'implementation': [repr(o[0])[:300] for o in results[i][0]]})
+        res.boundary += declined
+    eval_histories('c10_hist', seqs, results, max(400, (len(seqs) + NFILES[0] - 1) // NFILES[0]), on_codes)
     res.programs += sum(len(s) for s in seqs)
-    res.corr_errors += errors
-    declined = 0
-    for i, code in sorted(codes.items()):
-        if code == 3:
-            declined += 1
-            continue
-        res.disagreements.append({'kind': 'history', 'code': {1: 'outcome differs', 2: 'cache/scratch state differs',
-                                                               4: 'bad case'}.get(code, code),
-                                  'calls': [show_call(c) for c in seqs[i]],
-                                  'implementation': [repr(o[0])[:300] for o in results[i][0]]})
-    res.boundary += declined
     stats['exhaustive_sequences'] = len(seqs)
     stats['exhaustive_len3_full'] = bool(full3)
     for sq in seqs:
         if len(sq) >= 2:
             res.nontrivial.add(tuple(sq))
-    k = len(calls) + len(extra)
-    res.samples.append({'history': [show_call(c) for c in seqs[k + 7 * (k + 1)]],
-                        'outcomes': [repr(o[1])[:160] for o in results[k + 7 * (k + 1)][0]],
-                        'cache_keys_after': [e[0] for e in results[k + 7 * (k + 1)][0][-1][2][0]]})
+    bad = set(['f(x,)', 'x y+', '(x', 'y_1)', '2%%#'])
+    pick = next((i for i, sq in enumerate(seqs) if len(sq) == 3 and sq[0][1] in bad and sq[1][1] not in bad
+                 and sq[2][1] not in bad and sq[1][1] != sq[2][1]), len(seqs) - 1)
+    res.samples.append({'history': [show_call(c) for c in seqs[pick]],
+                        'outcome_of_each_call': [repr(o[1])[:200] for o in results[pick][0]],
+                        'same_calls_on_fresh_parsers': [repr(fresh_outcome(c))[:200] for c in seqs[pick]],
+                        'cache_keys_after': [e[0] for e in results[pick][0][-1][2][0]],
+                        'scratch_after': results[pick][0][-1][2][1]})
     return seqs, results
 
 
@@ -954,27 +997,29 @@ Fixpoint verif_codes (l : list (str * expr * sexp * names)) (i : Z) : list (Z * 
   | c :: r => let k := names_case c in if k =? 0 then verif_codes r (i + 1) else (i, k) :: verif_codes r (i + 1)
   end.
 ''')
-    shard = max(100, (len(terms) + 15) // 16)
+    shard = max(100, (len(terms) + NFILES[0] - 1) // NFILES[0])
     files = []
     for k in range(0, len(terms), shard):
         files.append(('c10_names_%04d' % (k // shard),
                       header + 'Definition verif_cases : list (str * expr * sexp * names) :=\n  [ %s ].\n'
                       % '\n  ; '.join(terms[k:k + shard]) + 'Eval vm_compute in (verif_codes verif_cases 0).\n'))
-    out = core.run_case_files(files)
-    for (name, rc, txt), k in zip(out, range(0, len(terms), shard)):
-        m = re.search(r'=\s*(\[.*?\]|nil)\s*:\s*list \(Z \* Z\)', txt, re.S)
-        if rc != 0 or not m:
-            res.corr_errors.append((name, txt[-2000:]))
-            continue
-        for a, b in re.findall(r'\((-?\d+),\s*(-?\d+)\)', m.group(1)):
-            s, e, got = metas[k + int(a)]
-            res.disagreements.append({'kind': 'names', 's': s, 'derivation': repr(e)[:400], 'implementation_reports': got,
-                                      'code': {1: 'string does not lex to the rendering of the derivation',
-                                               2: 'tree differs', 3: 'names differ'}.get(int(b), b)})
+    def handler(out):
+        for (name, rc, txt), k in zip(out, range(0, len(terms), shard)):
+            m = re.search(r'=\s*(\[.*?\]|nil)\s*:\s*list \(Z \* Z\)', txt, re.S)
+            if rc != 0 or not m:
+                res.corr_errors.append((name, txt[-2000:]))
+                continue
+            for a, b in re.findall(r'\((-?\d+),\s*(-?\d+)\)', m.group(1)):
+                s, e, got = metas[k + int(a)]
+                res.disagreements.append({'kind': 'names', 's': s, 'derivation': repr(e)[:400], 'implementation_reports': got,
+                                          'code': {1: 'string does not lex to the rendering of the derivation',
+                                                   2: 'tree differs', 3: 'names differ'}.get(int(b), b)})
+    DEFER.add(files, handler)
     res.programs += len(terms)
     if metas:
-        s, e, got = metas[len(FIXED_DERIVATIONS) * 4 + 3] if len(metas) > len(FIXED_DERIVATIONS) * 4 + 3 else metas[0]
-        res.samples.append({'string': s, 'derivation': repr(e)[:300], 'reported (vars, funcs, suffixes)': got})
+        for s, e, got in (metas[1], metas[min(len(metas) - 1, len(FIXED_DERIVATIONS) * 4 + 5)]):
+            res.samples.append({'string': s, 'derivation': repr(e)[:300], 'known_by_construction': expected_names(e),
+                                'reported (vars, funcs, suffixes)': got})
     return [m[0] for m in metas]
 
 
@@ -1024,22 +1069,23 @@ def random_histories(ctx, res, rng, stats, rendered):
     results = run_many(seqs)
     seqs, results = drop_unobserved(seqs, results, stats)
     check_histories(res, 'random', seqs, results, stats)
-    codes, errors = eval_histories('c10_rand', seqs, results, shard=max(60, (len(seqs) + 15) // 16))
+    def on_codes(codes, errors):
+        res.corr_errors += errors
+        declined = 0
+        for i, code in sorted(codes.items()):
+            if code == 3:
+                declined += 1
+                continue
+            res.disagreements.append({'kind': 'random-history', 'code': {1: 'outcome differs', 2: 'cache/scratch state differs',
+                                                                          4: 'bad case'}.get(code, code),
+                                      'calls': [show_call(c) for c in seqs[i]],
+                                      'implementation': [repr(o[0])[:300] for o in results[i][0]]})
+        res.boundary += declined
+        stats['model_declined_sequences'] = stats.get('model_declined_sequences', 0) + declined
+    eval_histories('c10_rand', seqs, results, max(40, (len(seqs) + NFILES[0] - 1) // NFILES[0]), on_codes)
     res.programs += sum(len(s) for s in seqs)
-    res.corr_errors += errors
-    declined = 0
-    for i, code in sorted(codes.items()):
-        if code == 3:
-            declined += 1
-            continue
-        res.disagreements.append({'kind': 'random-history', 'code': {1: 'outcome differs', 2: 'cache/scratch state differs',
-                                                                      4: 'bad case'}.get(code, code),
-                                  'calls': [show_call(c) for c in seqs[i]],
-                                  'implementation': [repr(o[0])[:300] for o in results[i][0]]})
-    res.boundary += declined
     stats['random_sequences'] = len(seqs)
     stats['random_calls'] = sum(len(s) for s in seqs)
-    stats['model_declined_sequences'] = stats.get('model_declined_sequences', 0) + declined
     for sq in seqs:
         res.nontrivial.add(tuple(sq))
     return seqs, results
@@ -1106,6 +1152,7 @@ def run(ctx):
              'names_evaluated': 0}
     res.rule = ('histories: distinct call sequences of length >= 2 (a call = parse or evaluator with a string; the first call of a '
                 'sequence alone is the fresh reference); names: distinct rendered derivations with at least two name occurrences')
+    NFILES[0] = 16 if ctx['tier'] == 'thorough' else 8
     saved = impl()['ex'].PARSER
     try:
         histories(ctx, res, rng, stats)
@@ -1113,6 +1160,7 @@ def run(ctx):
         random_histories(ctx, res, rng, stats, rendered)
     finally:
         impl()['ex'].PARSER = saved
+    DEFER.flush()
     # consumers run on the library's own shared parser, after everything above has been through the module
     with_names = []
     rng2 = random.Random(104729 * ctx['seed'] + 3)
